@@ -154,6 +154,14 @@ def body_cli(case, rec):
     want = fmt(conv.mk_assembly("x", norm(case["scaffolds"], with_tags=False), header=case["header"]), "agp")
     if back != want:
         raise Violation(f"AGP -> TPF -> AGP changed more than the tags: {first_diff(want, back)}")
+    # the same conversion with the AGP on standard input and the TPF on standard output
+    if case.get("stdin"):
+        r = remap.run_cli_subprocess(["-i", "AGP", "-f", "TPF"], script="asm_format", stdin=agp)
+        if r.returncode != 0:
+            raise Violation(f"asm-format reading STDIN failed: {r.stderr[-300:]}")
+        want_tpf = fmt(conv.mk_assembly("x", norm(case["scaffolds"], with_tags=False), header=case["header"]), "tpf")
+        if r.stdout != want_tpf:
+            raise Violation(f"asm-format STDIN -> STDOUT differs from the file conversion: {first_diff(want_tpf, r.stdout)}")
     # several input files in one invocation: the output is the concatenation of the single-file outputs
     sc = case["scaffolds"]
     if len(sc) >= 2:
@@ -401,7 +409,7 @@ SUBS = [
         budget={"quick": 8000, "thorough": 150000}, desc="parse_agp(format_agp(a)) = a; format(parse(text)) = text"),
     Sub("tpf", kind="hyp", strategy=lambda: assembly_cases(tpf=True), body=body_tpf,
         budget={"quick": 8000, "thorough": 150000}, desc="same through TPF (no tags; '?' strands raise or round-trip)"),
-    Sub("cli", kind="hyp", strategy=lambda: assembly_cases(tpf=True).filter(lambda c: all(r[0] == "G" or r[4] != 0 for _n, rows in c["scaffolds"] for r in rows)),
+    Sub("cli", kind="hyp", strategy=lambda: st.builds(lambda c, k: dict(c, stdin=k == 0), assembly_cases(tpf=True).filter(lambda c: all(r[0] == "G" or r[4] != 0 for _n, rows in c["scaffolds"] for r in rows)), st.integers(0, 7)),
         body=body_cli, budget={"quick": 320, "thorough": 5000}, desc="asm-format AGP -> TPF -> AGP"),
     Sub("lines", kind="hyp", strategy=line_cases, body=body_lines,
         budget={"quick": 8000, "thorough": 150000}, desc="corrupted lines: error, or exactly one row per data line in the scaffold the line names"),
